@@ -207,18 +207,71 @@ Definition spec_from (raw : bytes) : option bytes :=
   | _ => None
   end.
 
-(* one request for a key: implementation oracle first, then comparison with the model *)
-Definition check_request (requested : option bytes) (cls_i : nat) (signer : bytes) (r : res bytes) : N :=
+(* liveness by the specification: the hypotheses of theorems C08_liveness / C08_liveness_metadata
+   evaluated on the current file system (the address is backed by the last listed file naming it, that
+   file — or the key file its metadata names — holds the key of the address, Spec.spec_password finds a
+   password that opens it) *)
+Definition spec_live (fs : afs) (a : bytes) : bool :=
+  let F := fs_of fs in
+  match fs_readdir F (c_path c) with
+  | Ok listing =>
+      match backing spec_rule listing a None with
+      | Some fn =>
+          let primary := go_path_join (c_path c) fn in
+          match fs_readfile F primary with
+          | Ok content =>
+              let kp : option (bytes * bytes) :=
+                match classify_format (resolved_format c) with
+                | None =>
+                    Some (content,
+                          go_path_join (if bytes_eqb (c_pw_path c) [] then c_path c else c_pw_path c)
+                                       ((if c_with0x c then addr_string a else hex_encode a) ++ c_pw_ext c))
+                | Some m =>
+                    if meta_parse _ _ _ _ _ inst m content then
+                      let kf := goTemplateToString _ _ _ _ _ inst m content (c_key_prop c) in
+                      if bytes_eqb kf [] then None
+                      else match (if bytes_eqb kf primary then Ok content else fs_readfile F kf) with
+                           | Ok kc => Some (kc, goTemplateToString _ _ _ _ _ inst m content (c_pw_prop c))
+                           | _ => None
+                           end
+                    else None
+                end in
+              match kp with
+              | Some (kc, pf) =>
+                  match spec_password (fs_readfile F) (c_pw_trim c) go_trim_space pf (c_default_pw_file c) with
+                  | Some pw => match read_wallet _ _ _ _ _ inst kc pw with Ok ka => bytes_eqb ka a | _ => false end
+                  | None => false
+                  end
+              | None => false
+              end
+          | _ => false
+          end
+      | None => false
+      end
+  | _ => false
+  end.
+
+(* one request for a key: implementation oracles first, then comparison with the model.
+   [must]: the specification says the request has to succeed *)
+Definition check_request (requested : option bytes) (must : bool) (cls_i : nat) (signer : bytes) (r : res bytes) : N :=
   if (cls_i =? 2)%nat then 14
   else if (cls_i =? 0)%nat && negb (match requested with Some a => bytes_eqb a signer | None => false end) then 10
+  else if must && (cls_i =? 1)%nat then 13
   else match r with
        | Panic => 6
        | Ok a => if (cls_i =? 0)%nat then (if bytes_eqb a signer then 0 else 5) else 4
        | Err _ => if (cls_i =? 1)%nat then 0 else 4
        end.
 
-(* [acc]: addresses the specification says were discovered so far (all successful scans) *)
-Fixpoint eval (fs : afs) (s : st) (acc : list bytes) (h : list hop) : N :=
+Definition must_succeed (fresh : bool) (fs : afs) (requested : option bytes) : bool :=
+  match requested with
+  | Some a => fresh && spec_live fs a
+  | None => false
+  end.
+
+(* [acc]: addresses the specification says were discovered so far (all successful scans);
+   [fresh]: the wallet directory was scanned after its last change *)
+Fixpoint eval (fs : afs) (s : st) (acc : list bytes) (fresh : bool) (h : list hop) : N :=
   match h with
   | [] => 0
   | o :: h' =>
@@ -233,28 +286,28 @@ Fixpoint eval (fs : afs) (s : st) (acc : list bytes) (h : list hop) : N :=
                                 | _ => acc
                                 end
                            else acc in
-               eval fs s' acc' h'
+               eval fs s' acc' ((cls_i =? 0)%nat || fresh) h'
       | HAccounts l =>
           let li := map bexpand l in
           if negb (nodupb li) then 11
           else if negb (same_set li (dedup acc)) then 12
           else if negb (same_set li (GetAccounts _ s)) then 3
-          else eval fs s acc h'
+          else eval fs s acc fresh h'
       | HSign raw cls_i signer =>
           let raw := bexpand raw in
           let '(s', r) := Sign _ _ _ _ _ inst c s raw tt in
-          let code := check_request (spec_from raw) cls_i (bexpand signer) r in
-          if (code =? 0) then eval fs s' acc h' else code
+          let code := check_request (spec_from raw) (must_succeed fresh fs (spec_from raw)) cls_i (bexpand signer) r in
+          if (code =? 0) then eval fs s' acc fresh h' else code
       | HSignTD a cls_i signer =>
           let a := bexpand a in
           let '(s', r) := SignTypedDataV4 _ _ _ _ _ inst c s a tt in
-          let code := check_request (Some a) cls_i (bexpand signer) r in
-          if (code =? 0) then eval fs s' acc h' else code
+          let code := check_request (Some a) (must_succeed fresh fs (Some a)) cls_i (bexpand signer) r in
+          if (code =? 0) then eval fs s' acc fresh h' else code
       | HGetWF a cls_i kaddr =>
           let a := bexpand a in
           let '(s', r) := GetWalletFile _ _ _ _ _ inst c s a in
-          let code := check_request (Some a) cls_i (bexpand kaddr) r in
-          if (code =? 0) then eval fs s' acc h' else code
+          let code := check_request (Some a) (must_succeed fresh fs (Some a)) cls_i (bexpand kaddr) r in
+          if (code =? 0) then eval fs s' acc fresh h' else code
       | HWrite p kind idx =>
           let p := bexpand p in
           let fs' := (p, node_of kind idx) :: assoc_del p fs in
@@ -266,11 +319,11 @@ Fixpoint eval (fs : afs) (s : st) (acc : list bytes) (h : list hop) : N :=
           if k_listener k && has_prefix pre p && negb (has_slash name) then
             let '(s2, _) := step _ _ _ _ _ inst c s1 (OFsEvent unit unit name (match kind with O => true | _ => false end)) in
             let acc' := acc ++ spec_matches spec_rule [(name, match kind with O => true | _ => false end)] in
-            eval fs' s2 acc' h'
-          else eval fs' s1 acc h'
+            eval fs' s2 acc' false h'
+          else eval fs' s1 acc false h'
       | HRemove p =>
           let fs' := assoc_del (bexpand p) fs in
-          eval fs' (set_fs s fs') acc h'
+          eval fs' (set_fs s fs') acc false h'
       end
   end.
 
@@ -279,7 +332,7 @@ Definition check_case : N :=
   if (k_newcls k =? 2)%nat then 14
   else if negb (cls n =? k_newcls k)%nat then 1
   else if negb (k_newcls k =? 0)%nat then 0
-  else eval init_fs (init_state _ (fs_of init_fs)) [] (k_hist k).
+  else eval init_fs (init_state _ (fs_of init_fs)) [] false (k_hist k).
 
 End Inst.
 
